@@ -833,3 +833,130 @@ Proof.
   intros f F tag req ref p data HF Hok H. pose proof Hok as (Hp & Hl & Hb). cbn [rd_pos rd_ref] in *.
   unfold tr_ReadInt64. int_reader f F tag req ref p data HF Hok H.
 Qed.
+
+(* ---------- the readers that delegate: unsigned types and bool ---------- *)
+Lemma read_sim_map {V W} (c : ctl unit (go_reader * V * bool)) (k : V -> W) ref data data' (x : rres V)
+      (c' : ctl unit (go_reader * W * bool)) :
+  k data = data' -> read_sim c ref data x ->
+  (forall rd v e, c = Return (rd, v, e) -> c' = Return (rd, k v, e)) ->
+  read_sim c' ref data' (map_r k x).
+Proof.
+  intros <- S Hc. destruct x as [v rest|rest| |]; cbn [read_sim map_r] in *.
+  - destruct S as (p' & E & R). exists p'. split; [apply (Hc _ _ _ E)|exact R].
+  - destruct S as (p' & E & R). exists p'. split; [apply (Hc _ _ _ E)|exact R].
+  - destruct S as (p' & v & E). exists p', (k v). apply (Hc _ _ _ E).
+  - exact I.
+Qed.
+
+Theorem tr_ReadUint8_equiv : forall f F (tag : N) req ref p data, (f + 3 <= F)%nat -> ok (mk ref p 0) ->
+  seek_p f tag req (go_drop ref p) <> SeekFuel -> 0 <= data < 256 ->
+  read_sim (tr_ReadUint8 F data (Z.of_N tag) req (mk ref p 0)) ref data
+           (map_r (fun z => z mod 256) (with_seek_p f tag req (go_drop ref p) (read_int_body 16))).
+Proof.
+  intros f F tag req ref p data HF Hok H Hd.
+  eapply (read_sim_map _ (fun z => z mod 256) ref data data); [apply Z.mod_small; lia| |].
+  - apply (tr_ReadInt16_equiv f F tag req ref p data HF Hok H).
+  - intros rd v e E. unfold tr_ReadUint8. rewrite E. reflexivity.
+Qed.
+Theorem tr_ReadUint16_equiv : forall f F (tag : N) req ref p data, (f + 3 <= F)%nat -> ok (mk ref p 0) ->
+  seek_p f tag req (go_drop ref p) <> SeekFuel -> 0 <= data < 65536 ->
+  read_sim (tr_ReadUint16 (S F) data (Z.of_N tag) req (mk ref p 0)) ref data
+           (map_r (fun z => z mod 65536) (with_seek_p f tag req (go_drop ref p) (read_int_body 32))).
+Proof.
+  intros f F tag req ref p data HF Hok H Hd.
+  eapply (read_sim_map _ (fun z => z mod 65536) ref data data); [apply Z.mod_small; lia| |].
+  - apply (tr_ReadInt32_equiv f F tag req ref p data HF Hok H).
+  - intros rd v e E. unfold tr_ReadUint16. rewrite E. reflexivity.
+Qed.
+Theorem tr_ReadUint32_equiv : forall f F (tag : N) req ref p data, (f + 3 <= F)%nat -> ok (mk ref p 0) ->
+  seek_p f tag req (go_drop ref p) <> SeekFuel -> 0 <= data < 4294967296 ->
+  read_sim (tr_ReadUint32 F data (Z.of_N tag) req (mk ref p 0)) ref data
+           (map_r (fun z => z mod 4294967296) (with_seek_p f tag req (go_drop ref p) (read_int_body 64))).
+Proof.
+  intros f F tag req ref p data HF Hok H Hd.
+  eapply (read_sim_map _ (fun z => z mod 4294967296) ref data data); [apply Z.mod_small; lia| |].
+  - apply (tr_ReadInt64_equiv f F tag req ref p data HF Hok H).
+  - intros rd v e E. unfold tr_ReadUint32. rewrite E. reflexivity.
+Qed.
+
+Theorem tr_ReadBool_equiv : forall f F (tag : N) req ref p (data : bool), (f + 3 <= F)%nat -> ok (mk ref p 0) ->
+  seek_p f tag req (go_drop ref p) <> SeekFuel ->
+  read_sim (tr_ReadBool F data (Z.of_N tag) req (mk ref p 0)) ref data
+           (map_r (fun z => negb (z =? 0)) (with_seek_p f tag req (go_drop ref p) (read_int_body 8))).
+Proof.
+  intros f F tag req ref p data HF Hok H.
+  pose proof (tr_ReadInt8_equiv f F tag req ref p (if data then 1 else 0) HF Hok H) as R.
+  unfold tr_ReadBool.
+  assert (E0 : (if data then Next (mk ref p 0, 1) else Next (mk ref p 0, 0)) = (Next (mk ref p 0, if data then 1 else 0) : ctl (go_reader * Z) (go_reader * bool * bool)))
+    by (destruct data; reflexivity).
+  rewrite E0. cbn [bindc].
+  destruct (with_seek_p f tag req (go_drop ref p) (read_int_body 8)) as [v rest|rest| |]; cbn [read_sim map_r] in *.
+  - destruct R as (p' & -> & Rr). cbn [go_call bindc Bool.eqb negb]. exists p'. split; [|exact Rr].
+    destruct (v =? 0); reflexivity.
+  - destruct R as (p' & -> & Rr). cbn [go_call bindc Bool.eqb negb]. exists p'. split; [|exact Rr].
+    destruct data; reflexivity.
+  - destruct R as (p' & v & ->). cbn [go_call bindc Bool.eqb negb]. eexists; eexists; reflexivity.
+  - exact I.
+Qed.
+
+(* ---------- Next, ReadString ---------- *)
+Lemma rd_len_strict ref p d : 0 <= p <= go_len ref -> go_rd_len (mk ref p d) = go_len ref - p.
+Proof. intros H. unfold go_rd_len, go_rd_rest. cbn [rd_ref rd_pos]. apply go_drop_len. exact H. Qed.
+
+Lemma tr_Next_equiv n ref p d : 0 <= p <= go_len ref -> go_len ref <= LEN_MAX -> 0 <= n <= go_len ref - p ->
+  tr_Next n (mk ref p d) = Return (mk ref (p + n) d, firstn (Z.to_nat n) (go_drop ref p)).
+Proof.
+  intros Hp Hl Hn. unfold LEN_MAX in *. unfold tr_Next. destruct (n <=? 0) eqn:C; cbn [bindc].
+  - replace n with 0 by lia. rewrite Z.add_0_r. reflexivity.
+  - cbn [rd_ref]. rewrite rd_len_strict by lia.
+    unfold go_rd_seekcur, go_rd_set_pos. cbn [rd_pos rd_ref rd_depth].
+    rewrite (wrapS64_id (p + n)) by lia. replace (p + n <? 0) with false by lia. cbn [rd_ref].
+    rewrite rd_len_strict by lia. rewrite !wrapS64_id by lia.
+    replace (go_len ref - (go_len ref - p)) with p by lia. replace (go_len ref - (go_len ref - (p + n))) with (p + n) by lia.
+    replace (go_slice_ok ref p (p + n)) with true by (unfold go_slice_ok; lia).
+    unfold go_slice. rewrite go_take_firstn. do 3 f_equal. lia.
+Qed.
+
+Theorem tr_ReadString_equiv : forall f F (tag : N) req ref p data, (f + 3 <= F)%nat -> ok (mk ref p 0) ->
+  seek_p f tag req (go_drop ref p) <> SeekFuel ->
+  read_sim (tr_ReadString F data (Z.of_N tag) req (mk ref p 0)) ref data (with_seek_p f tag req (go_drop ref p) read_string_body).
+Proof.
+  intros f F tag req ref p data HF Hok H. pose proof Hok as (Hp & Hl & Hb). cbn [rd_pos rd_ref] in *.
+  pose proof (tr_SkipToNoCheck_equiv f F tag req ref p HF Hok H) as SK. unfold tr_ReadString, with_seek_p.
+  destruct (seek_p f tag req (go_drop ref p)) as [ty rest|rest| |]; cbn [seek_sim] in SK; try congruence.
+  - destruct SK as (q & -> & Er & Hq & Hty). cbn [go_call bindc Bool.eqb negb]. unfold read_string_body, take_str.
+    unfold k_codec_STRING4, k_codec_STRING1, tSTR4, tSTR1, c_STRING4, c_STRING1.
+    destruct (ty =? 7)%N eqn:T4.
+    + replace (Z.of_N ty =? 7) with true by lia.
+      pose proof (rd_be_equiv 4 ref q 0 ltac:(lia) ltac:(lia)) as RB. rewrite Er in RB.
+      pose proof (bread_lt 4 rest) as BL. change go_rd_u32 with (go_rd_be 4).
+      destruct (bread 4 rest) as [[l r']|].
+      * destruct RB as (-> & E2 & L2). cbn [bindc Bool.eqb negb].
+        assert (Hv : Z.of_N l < 2 ^ 32) by (apply (BL l r'); [rewrite <- Er; apply bytes_ok_drop; assumption|reflexivity]).
+        change (2 ^ 32) with 4294967296 in Hv.
+        rewrite rd_len_strict by lia.
+        assert (Lr : Z.of_nat (length r') = go_len ref - (q + Z.of_nat 4)) by (rewrite <- E2; apply (go_drop_len ref); lia).
+        destruct (N.of_nat (length r') <? l)%N eqn:C.
+        -- replace (go_len ref - (q + Z.of_nat 4) <? Z.of_N l) with true by lia. cbn [bindc read_sim]. eexists; eexists; reflexivity.
+        -- replace (go_len ref - (q + Z.of_nat 4) <? Z.of_N l) with false by lia. cbn [bindc].
+           rewrite tr_Next_equiv by lia. cbn [go_call bindc read_sim]. rewrite E2.
+           exists (q + Z.of_nat 4 + Z.of_N l). split; [do 3 f_equal; f_equal; lia|]. split; [|lia].
+           rewrite go_drop_add, E2 by lia. rewrite go_drop_skipn by lia. f_equal. lia.
+      * destruct RB as (p' & v & -> & _). cbn [bindc Bool.eqb negb read_sim]. eexists; eexists; reflexivity.
+    + replace (Z.of_N ty =? 7) with false by lia. destruct (ty =? 6)%N eqn:T1.
+      * replace (Z.of_N ty =? 6) with true by lia. unfold go_rd_u8. destruct rest as [|l r'].
+        -- rewrite (readbyte_nil _ _ _ Er). cbn [bindc Bool.eqb negb read_sim]. eexists; eexists; reflexivity.
+        -- rewrite (readbyte_cons _ _ _ _ _ Er). cbn [bindc Bool.eqb negb].
+           destruct (go_drop_cons ref q l r' ltac:(lia) Er) as [E1 L1].
+           rewrite rd_len_strict by lia.
+           assert (Lr : Z.of_nat (length r') = go_len ref - (q + 1)) by (rewrite <- E1; apply (go_drop_len ref); lia).
+           destruct (N.of_nat (length r') <? l)%N eqn:C.
+           ++ replace (go_len ref - (q + 1) <? Z.of_N l) with true by lia. cbn [bindc read_sim]. eexists; eexists; reflexivity.
+           ++ replace (go_len ref - (q + 1) <? Z.of_N l) with false by lia. cbn [bindc].
+              rewrite tr_Next_equiv by lia. cbn [go_call bindc read_sim]. rewrite E1.
+              exists (q + 1 + Z.of_N l). split; [do 3 f_equal; f_equal; lia|]. split; [|lia].
+              rewrite go_drop_add, E1 by lia. rewrite go_drop_skipn by lia. f_equal. lia.
+      * replace (Z.of_N ty =? 6) with false by lia. cbn [bindc read_sim]. eexists; eexists; reflexivity.
+  - destruct SK as (q & ty & -> & Er & Hq). cbn [go_call bindc Bool.eqb negb read_sim]. exists q. repeat split; try assumption; lia.
+  - destruct SK as (q & ty & -> & Hq). cbn [go_call bindc Bool.eqb negb read_sim]. eexists; eexists; reflexivity.
+Qed.
